@@ -31,9 +31,11 @@ def classify(f):
             intree = (ev.get("intree") or [True])[0]
             what = "comment-%s/%s/%s" % ("printed-differently" if intree else "not-in-the-tree", "Inline" if o.get("opt", 0) & 2 else "module",
                                          "line" if first.startswith("//") else "block")
+        elif not (ev.get("intree") or [True])[0]:
+            what += "-not-in-the-tree"       # the parser lost it: the first tree does not hold its bytes anywhere
         return "printer/literal-altered/%s" % what, ev, "missing from the printed text: %s" % json.dumps(first)
     if name == "Parse2":
-        et = ev.get("etext", "")
+        et = re.sub(r"( in [a-z][a-z -]*?)?( on line .*)?$", "", ev.get("etext", ""))
         et = re.sub(r"\s+", "-", re.sub(r"[^A-Za-z ]+", " ", et).strip())[:60]
         return "printer/reparse-fails/%s" % (et or "error"), ev, ev.get("etext", "")
     if name == "Trees":
